@@ -231,7 +231,18 @@ func Fill(t *rapid.T, n int) []byte {
 func ValidFrame(t *rapid.T, maxLen int) []byte {
 	mt := MsgType(t)
 	l := PayloadLen(t, maxLen)
-	return enc.Frame(enc.PayloadWithType(mt, l, Fill(t, l)))
+	f := enc.Frame(enc.PayloadWithType(mt, l, Fill(t, l)))
+	// One frame in forty has the CRC 0x000000 (a legitimate value, one real frame in 2^24 carries it): a
+	// message that ends in its own CRC-24Q has a zero remainder.
+	if l >= 6 && rapid.IntRange(0, 39).Draw(t, "zeroCRC") == 17 {
+		c := ref.CRC24Q(f[:3+l-3])
+		f[3+l-3], f[3+l-2], f[3+l-1] = byte(c>>16), byte(c>>8), byte(c)
+		f[3+l], f[3+l+1], f[3+l+2] = 0, 0, 0
+		if !ref.ValidFrame(f) {
+			panic("gen: zero-CRC construction is wrong")
+		}
+	}
+	return f
 }
 
 // SmallValidFrame draws a valid frame with a short payload (cheap streams).
